@@ -122,7 +122,10 @@ def _check_tdvp(case, rec):
         elif case.get('edit_between'):
             # user-style edit between the calls: the second call must see the current tensors (norm 2)
             k = case['psi']['seed'] % L
-            psi.A[k] = 2.0 * psi.A[k]
+            if case['psi']['seed'] % 2 and np.iscomplexobj(psi.A[k]):
+                psi.A[k] *= 2.0          # in place: the array object (and its id) stays the same
+            else:
+                psi.A[k] = 2.0 * psi.A[k]
             expect = 2.0
             rec.label('edit_between_calls')
         if case.get('edit_H'):
